@@ -128,7 +128,7 @@ ADDENDA = {
  "C17": " Added (axiom-free, Bartmap_fit.v): BARTMAP.fit as a whole - both data sets validated first, the column module fitted alone on the transposed matrix, the row module fitted with the row veto (an oracle: a function of the row number, universally quantified) - ends in a checkerboard: shapes, widths, every cell in exactly one bicluster, membership = labels, with NO hypothesis on the labels (they are what the two fits produce; C05's invariant supplies the ranges). Correspondence: whole fit calls on square grid matrices against the model, the implementation's own veto verdicts as oracle. BARTMAP's row veto over a DualVigilanceART column module (repaired /repo 30c6fc7; the ValueError is filed under the recorded empty-cluster finding only when a cluster really is empty); audit probes (constant rows / columns, pruning TopoART as column module).",
  "C16": " Added (Falcon_ep.v): whole calculate_SARSA calls for episodes of every length >= 1 (one target per kept row, every target a valid reward-channel input, a one-step episode trains on its own reward row or the complement-coded single_sample_reward), the untrained target for every td_alpha (clip(alpha r)), and the greedy action 'minimal on request'. Correspondence for whole calls incl. one-step episodes; default action space.",
  "C15": " Oracle: CVIART fits of 1-3 epochs, every step judged against the labelling before that step, exceptions on valid data are failures (two defects repaired: CVI_match on labellings without an index, iCVI_CH on the caller's array / dtype); add/switch streams as unsigned / boolean / float32 rows and through one re-used buffer. Added (axiom-free, CVI_gate.v): the CVIART gate as repaired - a permitted assignment strictly improves the index whenever both labellings have one, an assignment that does not is refused, a verdict always exists (no index for < 2 or n distinct labels: permitted); correspondence of every recorded CVI_match call (corr/RunGate.v, scikit-learn's index values as oracle).",
- "C12": " Oracle: SMART / DeepARTMAP over every elementary module class as level model, 2..4 levels (Bayesian: decreasing ladder).",
+ "C12": " Oracle: SMART / DeepARTMAP over every elementary module class as level model, 2..4 levels (Bayesian: decreasing ladder). Added (axiom-free, Deep_tree.v): along the WHOLE chain of levels the category counts never decrease, and sharing a category at any finer level implies sharing one at EVERY coarser level.",
  "C09": " Oracle: the public map_a2b on vectors and single labels. Added (axiom-free, SAM_reach.v): for every state reachable by any history of fit / partial_fit calls the stored A-side labels map to the supplied targets and a prediction is a seen class; between two fits an A-side category keeps its class for the whole history (the map only grows).",
  "C01": " Oracle: the search as SimpleARTMAP drives it (its own reset function) against the specification scan, all eight modules.",
  "C20": " Added (axiom-free, VAT_prim.v): Prim's rule along the WHOLE returned order (every sample after the first is an unvisited sample closest to the samples before it - by induction over the loop with its prefix/permutation invariant), and symmetry / zero diagonal of the returned matrix for such input.",
